@@ -294,14 +294,14 @@ def run_shard(spec):
                 out["hist"][f"hw:data_width={m}"] = out["hist"].get(f"hw:data_width={m}", 0) + 1
                 if not check_hardware(p, m, rng, out, 60 if tier == "quick" else 200, name):
                     break
-        nrand = (2000 if tier == "quick" else 30000) // parts
+        nrand = (2000 if tier == "quick" else 120000) // parts
         for k in range(nrand):
             p = rand_params(rng)
             m = rng.choice([1, 2, 3, 4, 5, 7, 8, 8, 9, 16, 24, p["crc_width"]])
             check_software(p, m, rng, out, 3, "random")
             key = "sw-random:" + ("equal-reflect" if p["reflect_input"] == p["reflect_output"] else "cross-endian")
             out["hist"][key] = out["hist"].get(key, 0) + 1
-        nhw = (160 if tier == "quick" else 1600) // parts
+        nhw = (160 if tier == "quick" else 6400) // parts
         for k in range(nhw):
             p = rand_params(rng)
             n = p["crc_width"]
